@@ -348,3 +348,47 @@ def path_problems(path, s1, s2, window=None, penalty=None, psi=None, max_step=No
                 cost += pen
         prev = (i, j)
     return probs, cost
+
+
+# ------------------------------------------------------------------------------------------------------
+# optimal path counting (C12: the DBA defining equation is only owed when optimal paths are unique)
+# ------------------------------------------------------------------------------------------------------
+def ref_unique_path(s1, s2, window=None, penalty=None, inner='squared euclidean'):
+    """(internal cost, path) with path = the optimal warping path if it is unique (exact ties counted), else None.
+    No psi, no max_step."""
+    dist, _res, ival = INNER[inner]
+    l1, l2 = len(s1), len(s2)
+    pen = ival(penalty) if penalty else 0.0
+    R = {}
+    N = {}
+    P = {}
+    for i in range(l1):
+        a, b = band(i, l1, l2, window)
+        for j in range(a, b):
+            d = dist(s1[i], s2[j])
+            cands = []
+            if i == 0 and j == 0:
+                cands.append((0.0, 1, None))
+            for (pi, pj, extra) in ((i - 1, j - 1, 0.0), (i - 1, j, pen), (i, j - 1, pen)):
+                v = R.get((pi, pj))
+                if v is not None:
+                    cands.append((v + extra, N[(pi, pj)], (pi, pj)))
+            if not cands:
+                continue
+            best = min(c[0] for c in cands)
+            tied = [c for c in cands if c[0] == best or abs(c[0] - best) <= 1e-12 * max(1.0, abs(best))]
+            R[(i, j)] = d + best
+            N[(i, j)] = sum(c[1] for c in tied)
+            P[(i, j)] = tied[0][2]
+    end = (l1 - 1, l2 - 1)
+    if end not in R:
+        return None, None
+    if N[end] != 1:
+        return R[end], None
+    path = []
+    cur = end
+    while cur is not None:
+        path.append(cur)
+        cur = P[cur]
+    path.reverse()
+    return R[end], path
